@@ -393,7 +393,11 @@ fn exhaustive_read(which: usize, rep: &mut Report) {
     // line and not a byte more, however long it is
     if which == 0 {
         let good = refs::enc_crlf(0x0003, 0x04, &[0x07]);
-        for n in [524usize, 599, 600, 601, 1023, 1024, 4095, 4096, 4097, 65_535, 65_536, 70_000] {
+        // (.. and around a mebibyte and two: a reader that caps what one call may take leaves the rest of the line behind)
+        for n in [524usize, 599, 600, 601, 1023, 1024, 4095, 4096, 4097, 65_535, 65_536, 70_000, (1 << 20) - 3, (1 << 20) - 2, (1 << 20) - 1, 1 << 20, (1 << 20) + 1, (1 << 20) + 523, (1 << 21) + 5, (1 << 22) + 1] {
+            if n > 70_000 {
+                rep.count("read_cases/overlong_line_of_a_mebibyte_or_more");
+            }
             for filler in [b'A', b':', 0xFF] {
                 let mut tape = vec![b':'];
                 tape.extend(std::iter::repeat(filler).take(n - 1));
@@ -1354,11 +1358,12 @@ pub fn run(ctx: &Ctx) -> Outcome {
         floor("the same frame on consecutive lines; wrong terminators made of CR / blank / tab", report.get("lines/same_frame_as_previous_line") > 1000 && report.get("lines/doubled_cr") > 100 && report.get("lines/blank_near_terminator") > 100, report.get("lines/same_frame_as_previous_line")),
         floor("good frames after exactly k undecodable lines / k failing reads (k = 1..257)", report.get("read_cases/k_undecodable_lines_then_good_ones") == 40 && report.get("read_cases/k_failing_reads_then_good_ones") == 8, report.get("read_cases/k_undecodable_lines_then_good_ones")),
         floor("junk lines of every length 3 ..= 4400 and around every multiple of 523 up to 40 x, each followed by two good frames", report.get("read_cases/junk_line_of_every_length") == 4398 + 96, report.get("read_cases/junk_line_of_every_length")),
-        floor("lines of 524 .. 70 000 bytes without a line feed, then good frames; noise in front of a frame on the same line", report.get("read_cases/overlong_line_then_good_frames") == 36 && report.get("lines/leading_noise") > 100, report.get("lines/leading_noise")),
+        floor("lines of 524 .. 70 000 bytes without a line feed, then good frames; noise in front of a frame on the same line", report.get("read_cases/overlong_line_then_good_frames") == 60 && report.get("lines/leading_noise") > 100, report.get("lines/leading_noise")),
         floor("junk lines of 515 .. 530 bytes (around the longest frame's 523), then good frames", report.get("read_cases/junk_line_about_as_long_as_the_longest_frame") == 64, report.get("read_cases/junk_line_about_as_long_as_the_longest_frame")),
         floor("lines whose length field alone is wrong (off by 1 .. 255) with a checksum that is right for the bytes as sent", report.get("lines/wrong_length_field_right_checksum") > 1000, report.get("lines/wrong_length_field_right_checksum")),
         floor("300 to 70 000 interrupted reads during one line", report.get("read_cases/thousands_of_interrupts_in_one_line") == 12, report.get("read_cases/thousands_of_interrupts_in_one_line")),
         floor("maximum-length lines read through 1..6 interrupted reads", report.get("read_cases/maximum_length_frames_interrupted") == 84, report.get("read_cases/maximum_length_frames_interrupted")),
+        floor("lines of 2^20 - 3 .. 2^22 + 1 bytes without a line feed (8 lengths), each followed by two good frames", report.get("read_cases/overlong_line_of_a_mebibyte_or_more") == 8, report.get("read_cases/overlong_line_of_a_mebibyte_or_more")),
         floor("70 000 lines through one reader and 70 000 frames into one sink", report.get("marathon_lines_read") == 70_000 && report.get("marathon_frames_written") == 70_000, format!("{} / {}", report.get("marathon_lines_read"), report.get("marathon_frames_written"))),
         floor("multi-frame streams", report.get("multi_frame_streams") > 0, report.get("multi_frame_streams")),
         floor("read faults of each kind fired", ["faults_fired/interrupted", "faults_fired/hard_error", "faults_fired/eof"].iter().all(|k| report.get(k) > 0), report.get("faults_fired/hard_error")),
